@@ -3,7 +3,7 @@
 part "pair": a universe V of VLAN ids; every ordered pair (S_old, S_new) of subsets; each set written as the vendor's
              range list (mc.ref.vlan.collapse - independent of annet) and cut over 1..3 config lines in every
              contiguous way; old/new config trees are pushed through the production pipeline
-             make_diff -> make_pre -> make_patch on the SHIPPED rulebook; the emitted rows are executed, in order, by
+             annet.api._diff_and_patch (make_diff -> make_pre -> patch_from_pre) on the SHIPPED rulebook; the emitted rows are executed, in order, by
              the VLAN-set machine of mc.ref.vlan:  final set == S_new, and every intermediate set contains
              S_old & S_new.  Global lists are additionally explored next to a `vlan N` block (huawei vlan_diff,
              cisco block handling).
@@ -170,6 +170,17 @@ def _hw(name):
     return _hw_cache[name]
 
 
+_dev_cache = {}
+
+
+def _dev(name, hw):
+    if name not in _dev_cache:
+        import types
+        _dev_cache[name] = types.SimpleNamespace(hw=hw, hostname="dev-" + name, fqdn="dev-%s.example" % name, id=1,
+                                                 breed=name, neighbours_ids=[])
+    return _dev_cache[name]
+
+
 # ---------------------------------------------------------------------------------------------------
 # enumeration
 def subsets(universe):
@@ -257,12 +268,12 @@ def build_tree(kind, lines, blk_b=None, blk_state=None):
 
 def emitted_rows(kind, old_tree, new_tree):
     """the production pipeline; returns the rows addressed to the VLAN list's context, in patch order"""
-    from annet import patching, rulebook
+    from annet import api
     hw = _hw(kind.hwname)
-    rb = rulebook.get_rulebook(hw)
-    diff = patching.make_diff(env.to_odict(old_tree), env.to_odict(new_tree), rb, [])
-    pre = patching.make_pre(diff)
-    pt = patching.make_patch(pre=pre, rb=rb, hw=hw, add_comments=False)
+    # the production composition (what `annet patch` / `annet deploy` run): make_diff -> make_pre -> patch_from_pre on the
+    # rulebook the provider returns for this hardware; the VLAN logics read the unchanged rows of their key, so it matters
+    # what the caller hands them
+    _diff, pt = api._diff_and_patch(_dev(kind.hwname, hw), env.to_odict(old_tree), env.to_odict(new_tree), None, None, False)
     rows = []
     for it in pt.itms:
         if kind.parent:
